@@ -47,7 +47,7 @@ def draw_case(dec, p="cfg", kinds=("stub_int", "stub_path", "stub_tabgrid", "rea
         cfg["NKFFT"] = [1 if not per else [1, 2, 3][dec(f"{p}/NKFFT", 3)] for per in cfg["sym"]["periodic"]]
         if cfg["sym"]["constraint"] == "cubic":
             cfg["NKFFT"] = [cfg["NKFFT"][0]] * 3
-        elif cfg["sym"]["constraint"] == "N1=N2":
+        elif cfg["sym"]["constraint"] in ("N1=N2", "check"):
             cfg["NKFFT"][1] = cfg["NKFFT"][0]
         cfg["use_irred_kpt"] = False      # stub tabulators are not covariant fields
         cfg["tab"] = [dict(seed=31 + dec(f"{p}/tab_seed/{i}", 1000), rank=r) for i, r in enumerate([0, 1])]
